@@ -52,7 +52,7 @@ def run(chk: harness.Check):
         "matching public Metadata accessor must contain the same function while the accessor reads the same key constant; process_frontmatter and "
         "metadata() call check_std_entry with self.converter and store its Servings in content.data. D2: integer arithmetic inventory restricted to the "
         "metadata module. D3: in value_as_servings no order-changing or element-removing Vec method is applied to the vector that is returned, and every "
-        "dedup/windows test runs on a vector that was sorted first. Necessary conditions: what the parsers accept is not decided.")
+        "dedup/windows test runs on a vector that was sorted first. D4: value_as_tags returns a vector it fills by pushes that lie under the false outcomes of is_empty() and contains(). Necessary conditions: what the parsers accept is not decided.")
     chk.trusted = ["rustc MIR, resolved callees", "tables/narrow_arith.toml"]
     chk.analysed = {"facts": th}
     d1_siblings(chk, F)
@@ -60,6 +60,47 @@ def run(chk: harness.Check):
     n = c03.d2_arith(chk, F, pid="C13", only_regions=regions)
     chk.notes["arith_sites_in_metadata"] = n
     d3_servings(chk, F)
+    d4_tags(chk, F)
+
+
+def d4_tags(chk, F):
+    """Tags are the non-empty, de-duplicated entries: value_as_tags returns a vector it builds itself, and every element
+    enters it through a push that lies under the `false` outcome of is_empty() on the entry and of contains() on the
+    vector built so far (a set-insert test is accepted as well)."""
+    from cfgq import calls_to, call_result_edges
+    from flow import resolve, leaves, show
+    fs = [g for g in F.find("metadata::value_as_tags") if not g.is_closure()]
+    if len(fs) != 1:
+        chk.fail("anchor-missing", "value_as_tags", "", "anchor-missing: metadata::value_as_tags not found")
+        return
+    f = fs[0]
+    oks = []
+    for i, j, st in f.iter_stmts():
+        rv = st.get("rv", {})
+        if rv.get("k") == "agg" and rv.get("agg") == "adt" and norm(rv["adt"]).endswith("result::Result") and rv["variant"] == "Ok":
+            oks.append((i, st, resolve(f, rv["ops"][0])))
+    chk.floor("C13.D4-tags", "Ok(..) returns of value_as_tags", len(oks), 1, f"{f.file}:{f.line}")
+    FRESH = ("Vec::<T>::with_capacity", "Vec::<T>::new", "Vec::with_capacity", "Vec::new")
+    for i, st, e in oks:
+        calls = [l[5:] for l in leaves(e) if l.startswith("call:")]
+        fresh = e[0] == "call" and any(e[1].endswith(x) for x in FRESH)
+        chk.expect(fresh, "C13.D4-tags", "value_as_tags|returned vector", f"{f.file}:{st.get('line')}",
+                   f"value_as_tags returns {show(e, -50)[:120]} instead of a vector it fills entry by entry under the empty / already-present tests "
+                   "(Vec::dedup only removes adjacent repeats)", sample=f"{f.file}:{st.get('line')}: returns the freshly built `tags` vector")
+    pushes = [(b, t) for b, t in f.calls() if (callee_key(t) or "").endswith(("Vec::<T, A>::push", "Vec::<T, A>::insert", "Vec::<T, A>::extend", "Vec::<T, A>::append"))
+              or (callee_key(t) or "").endswith("Extend<T>>::extend")]
+    chk.floor("C13.D4-tags", "pushes into the tag vector", len(pushes), 1, f"{f.file}:{f.line}")
+    empt = [b for b, t in f.calls() if (callee_key(t) or "").endswith(("str>::is_empty", "String::is_empty"))]
+    cont = [b for b, t in f.calls() if (callee_key(t) or "").endswith(("[T]>::contains", "HashSet::<T, S>::contains", "BTreeSet::<T, A>::contains"))]
+    sins = [b for b, t in f.calls() if (callee_key(t) or "").endswith(("HashSet::<T, S>::insert", "BTreeSet::<T, A>::insert"))]
+    for b, t in pushes:
+        ck = (callee_key(t) or "").rsplit("::", 1)[-1]
+        ne = any(f.edge_dominates(e_, b) for x in empt for e_ in call_result_edges(f, x)[1])
+        nd = any(f.edge_dominates(e_, b) for x in cont for e_ in call_result_edges(f, x)[1]) or \
+            any(f.edge_dominates(e_, b) for x in sins for e_ in call_result_edges(f, x)[0])
+        chk.expect(ck == "push" and ne and nd, "C13.D4-tags", f"value_as_tags|{ck}", f.where(b),
+                   f"a tag enters the result through `{ck}` without the non-empty test ({ne}) and the not-yet-present test ({nd}) on every path",
+                   sample=f"{f.where(b)}: push under !is_empty() && !contains()")
 
 
 def d1_siblings(chk, F):
